@@ -160,7 +160,7 @@ func genCodec(t *Tracer, m *Meta, tier string, seed int64) {
 				n = 4000
 			}
 			if !quick {
-				n *= 20
+				n *= 50 // 10^6 per 32-bit encoder, 2*10^5 per 64-bit one
 			}
 			for i := 0; i < n; i++ {
 				u := r.Uint64()
